@@ -27,6 +27,9 @@ def cases(tier):
                 continue
             cs.append(dict(name=f"gram_only_{a}_m{m}", fn="gram_only", args=dict(agg=a, m=m), weight=m * m * (4 if a in C11.SPECTRAL else 1)))
     cs.append(dict(name="gram_only_krum_m3", fn="gram_only", args=dict(agg="krum", m=3), weight=3))
+    for a in C11.WEIGHTED:
+        m = 3 if a == "krum" else 2
+        cs.append(dict(name=f"zero_columns_{a}_m{m}", fn="zero_columns", args=dict(agg=a, m=m), weight=4 * (4 if a in C11.SPECTRAL else 1)))
     for n in (1, 2, 3):
         for m in (1, 2, 3):
             cs.append(dict(name=f"lemma_gramian_invariant_{m}x{n}", fn="lemma", args=dict(m=m, n=n), weight=n))
@@ -49,6 +52,34 @@ def case_gram_only(sp, agg, m):
         return [Ob(f"reads_only_the_gramian[{agg}]", False, lambda model, e=e: dict(kind="gram_only_read", agg=agg, m=m, what=str(e)))]
     ok = isinstance(out, torch.RowComb) and out._J is J and tuple(out._w.shape) == (m,)
     return [Ob(f"output_is_a_combination_of_the_rows_with_gramian_only_weights[{agg}]", ok, lambda model: dict(kind="gram_only_read", agg=agg, m=m, what="output is not w @ J"))]
+
+
+def case_zero_columns(sp, agg, m):
+    """appending all-zero columns leaves the Gramian unchanged; the weights must therefore not depend on the number of columns either:
+    the same Gram-only matrix is presented with n = m and with n = m + 1000 columns"""
+    set_kernels(sort_mode="axiom")
+    J, G, extra = C11.domain(sp, agg, m, n=m)
+    C11.assume_params(agg, m)
+    A = C11.make(agg, m)
+    torch.manual_seed(0)
+    w1 = A(J)._w._flat()
+    firsts = [e for e in torch.EVENTS if e[0] == "kernel" and e[1] in ("solve_qp", "cvxpy_simplex")]
+    torch.KERNELS["qp_candidates"] = lambda: [list(e[3]._flat()) for e in firsts if e[1] == "solve_qp"]
+    torch.KERNELS["cvx_candidates"] = lambda: [(list(e[3]), e[4]) for e in firsts if e[1] == "cvxpy_simplex"]
+    J2 = torch.GramOnly(J._G, m + 1000, dist=J._dist)
+    torch.manual_seed(0)
+    w2 = A(J2)._w._flat()
+    def cex(model):
+        d = dict(kind="zero_columns", agg=agg, m=m, n1=m, n2=m + 1000, params=C11.params_cex(model, agg, m))
+        d.update(cex_values(model, G=G) if G is not None else cex_values(model, dist=extra))
+        return d
+    if any(isinstance(x, Sp) for x in w1 + w2):
+        return [Ob(f"finite[{agg}]", False, cex)]
+    if G is None:
+        return [Ob(f"weights_independent_of_the_number_of_columns[{agg}]", eq_all(w1, w2), cex)]
+    delta = [a - b for a, b in zip(w1, w2)]
+    q = rsum(delta[i] * delta[j] * G[i][j] for i in range(m) for j in range(m))
+    return [Ob(f"weights_independent_of_the_number_of_columns[{agg}]", q.eqz(0), cex)]
 
 
 def case_lemma(sp, m, n):
